@@ -105,6 +105,26 @@ pub fn run(tier: &str) -> i32 {
       Err(_) => {}
     }
   }
+  // a CA-certified participant that presents (and signs over) participant data with a GUID not bound to its certificate
+  for replier_lies in [true, false] {
+    match h::lying_run(&ca, &cb, replier_lies) {
+      Ok((a, b)) => {
+        // the side that receives the lie must not authenticate the liar
+        let victim_authenticated = if replier_lies { a } else { b };
+        if victim_authenticated {
+          rep.violation(
+            &format!("C19:unbound-guid:{}", if replier_lies { "replier-lies" } else { "requester-lies" }),
+            json!({"replier_lies": replier_lies}),
+            &format!(
+              "a participant with a CA-issued certificate that presents a GUID not bound to that certificate (as {}) was authenticated by its peer",
+              if replier_lies { "replier" } else { "requester" }
+            ),
+          );
+        }
+      }
+      Err(e) => rep.machinery_errors.push(format!("lying run: {e}")),
+    }
+  }
   let old = match h::genuine(&ca, &cb) {
     Ok((t, _)) => t,
     Err(e) => {
